@@ -65,6 +65,13 @@ func recvName(fd *ast.FuncDecl) string {
 	if s, ok := t.(*ast.StarExpr); ok {
 		t = s.X
 	}
+	// generic receivers: Cache[T], Pair[K, V]
+	if ix, ok := t.(*ast.IndexExpr); ok {
+		t = ix.X
+	}
+	if ix, ok := t.(*ast.IndexListExpr); ok {
+		t = ix.X
+	}
 	if id, ok := t.(*ast.Ident); ok {
 		return id.Name
 	}
